@@ -226,7 +226,9 @@ class Runner:
         ok = True
         for j, v in heldv.items():
             pv = pure_value(sp, j)
-            if pv != ("ok", v):
+            # (the recursion limit is a session option, not a definition: a value computed while the limit was
+            #  higher stays correct after it is lowered, and the other way round)
+            if pv != ("ok", v) and pure_value(sp, j, limit=None) != ("ok", v):
                 ok = False
                 if where == "after-edit" and not self.failures_seen:
                     # no failure happened yet: not this property's business (note it, drop the case)
